@@ -480,9 +480,17 @@ def load_request(ps, settings_nonempty):
         mem.insert(0, (u'mimetype', ps['mimetype'].encode('utf-8')))
     mem.append((u'META-INF/manifest.xml', manifest_xml(ps['manifest'])))
     t.append(str(len(mem)))
+    keys = set(p_ for p_, _t in ps['manifest'])
     for n, b in mem:
-        # the parts load() parses travel as a placeholder; a sub-document's meta.xml is kept verbatim as an extra, so it travels in full
-        parsed = n == u'meta.xml' or n.rsplit(u'/', 1)[-1] in (u'content.xml', u'styles.xml', u'settings.xml')
+        # the parts load() parses travel as a 3-byte placeholder (transport only: a wrong guess here shows up as a difference);
+        # everything load() keeps verbatim (a sub-document's meta.xml, the parts of a folder that is not a listed object folder) in full
+        rest = n
+        while True:
+            mm = re.match(u'Object [0-9]+/', rest)
+            if mm is None or n[:len(n) - len(rest)] + mm.group(0) not in keys:
+                break
+            rest = rest[len(mm.group(0)):]
+        parsed = n == u'meta.xml' or rest in (u'content.xml', u'styles.xml', u'settings.xml')
         short = b'<x>' if parsed and xml_root(b) is not None and xml_root(b)[0] == OFFICENS else b
         t += [enc_str(n), enc_bytes(short)]
     t.append(str(len(settings_nonempty)))
